@@ -45,6 +45,9 @@ def run(ctx):
     r3(ctx, lib)
     r4(ctx, lib)
     r6(ctx, lib)
+    if ctx.tier == 'thorough' and not getattr(ctx, 'sibling', None):
+        from .. import sweep
+        sweep.double_stat(ctx, 'C18.R5')
 
 
 EXIST_FOLLOW = r'^std::path::Path::(exists|try_exists|metadata|is_file|is_dir)$|^std::fs::(metadata|exists)$|^std::fs::File::open$'
